@@ -100,16 +100,17 @@ def recognise_las(vers20: bool, ncurves: int, wrap: bool, lead: int, comments: b
         return ok and t == ('LAS2.0' if vers20 else 'LAS1.2')
 
 
-def recognise_bit_dat(which: int, nch: int, f0: int, inc: bool, s: int, perm: int, hdr: int, nrows: int, tab: bool) -> bool:
+def recognise_bit_dat(which: int, nch: int, f0: int, inc: bool, s: int, perm: int, hdr: int, nrows: int, tab: bool, big: int = 0) -> bool:
     """
     pre: 0 <= which <= 1 and 1 <= nch <= 3 and 1 <= f0 <= 3 and s in (0, 128, 255) and 0 <= perm <= 3 and 0 <= hdr <= 3 and 1 <= nrows <= 2
     pre: which == 1 or (perm == 0 and hdr == 0 and nrows == 1 and not tab)
     pre: which == 0 or (nch == 1 and f0 == 1 and s == 0)
+    pre: 0 <= big <= 3 and (which == 1 or big == 0)
     pre: PART < 0 or which * 4 + (perm if which else nch) == PART
     post: _
     """
     which, nch, f0, s, perm, hdr, nrows = mark.pick(which, 0, 1), mark.pick(nch, 1, 3), mark.pick(f0, 1, 3), mark.pick_from(s, (0, 128, 255)), mark.pick(perm, 0, 3), mark.pick(hdr, 0, 3), mark.pick(nrows, 1, 2)
-    inc, tab = mark.pickb(inc), mark.pickb(tab)
+    inc, tab, big = mark.pickb(inc), mark.pickb(tab), mark.pick(big, 0, 3)
     with mark.untraced():
         if which == 0:
             import C13_bit as H13
@@ -119,6 +120,21 @@ def recognise_bit_dat(which: int, nch: int, f0: int, inc: bool, s: int, perm: in
             return ok and t == 'BIT'
         import C14_dat as H14
         text, names, model = H14._text(perm, hdr, nrows, tab, inc, 1, 11, 0, 0)
+        if big:
+            # size must not matter: big 1 = 40, big 2 = 150 further declared channels that are all on the header line (declarations + header
+            # of about 2 KB / 7 KB), big 3 = 400 further data rows
+            lines = text.split('\n')[:-1]
+            sep = '\t' if tab else ' '
+            nd = len(H14.DECLS)
+            if big in (1, 2):
+                extra = ['X%03d' % k for k in range(40 if big == 1 else 150)]
+                decl = ['%s Extra channel number %d percent' % (n, k) for k, n in enumerate(extra)]
+                lines = lines[:nd] + decl + [lines[nd] + sep + sep.join(extra)] + [l + sep + sep.join('%d.5' % k for k in range(len(extra))) for l in lines[nd + 1:]]
+            else:
+                lines = lines + [lines[-1]] * 400
+            text = '\n'.join(lines) + '\n'
+            if H14.DAT_parser.parse_file(io.StringIO(text), 'id') is None:
+                return False
         mark.hit()
         t, ok = _typed(text.encode('ascii'))
         return ok and t == 'DAT'
